@@ -83,8 +83,12 @@ class Monitor:
         return changed
 
     # ---- wrapping ------------------------------------------------------------------------
-    def _wrap(self, owner, name, opname, post=None, register_result=None, exempt_args=None):
-        orig = getattr(owner, name)
+    def _wrap(self, owner, name, opname, post=None, register_result=None, exempt_args=None, product_exempt=False):
+        raw = owner.__dict__.get(name) if hasattr(owner, "__dict__") else None
+        is_static = isinstance(raw, staticmethod)
+        is_class = isinstance(raw, classmethod)
+        orig = raw.__func__ if (is_static or is_class) else getattr(owner, name)
+        restore = raw if (is_static or is_class) else orig
         mon = self
 
         @functools.wraps(orig)
@@ -112,6 +116,10 @@ class Monitor:
                     except Exception:
                         pass
                 ex = ()
+                if product_exempt and id(res) in mon.live:
+                    # the object a parser is meant to produce (calling parse_*() twice on one parser object fills the
+                    # same result object again: that is the parser's business, not a purity violation of C07's calls)
+                    mon.live[id(res)][2] = digest.digest(res)
                 if exempt_args is not None:
                     try:
                         ex = tuple(id(x) for x in exempt_args(a, kw))
@@ -128,8 +136,8 @@ class Monitor:
                     pass
             return res
 
-        setattr(owner, name, wrapper)
-        self.installed.append((owner, name, orig))
+        setattr(owner, name, staticmethod(wrapper) if is_static else (classmethod(wrapper) if is_class else wrapper))
+        self.installed.append((owner, name, restore))
 
     def attach(self):
         import pddl_plus_parser.models as M
@@ -173,8 +181,8 @@ class Monitor:
         self._wrap(EX.ProblemExporter, "extract_problem", "ProblemExporter.extract_problem")
         self._wrap(EX.TrajectoryExporter, "parse_plan", "TrajectoryExporter.parse_plan", register_result=reg_triplets)
         self._wrap(EX.TrajectoryExporter, "export", "TrajectoryExporter.export")
-        self._wrap(LP.DomainParser, "parse_domain", "DomainParser.parse_domain", register_result=reg_domain)
-        self._wrap(LP.ProblemParser, "parse_problem", "ProblemParser.parse_problem", register_result=reg_domain)
+        self._wrap(LP.DomainParser, "parse_domain", "DomainParser.parse_domain", register_result=reg_domain, product_exempt=True)
+        self._wrap(LP.ProblemParser, "parse_problem", "ProblemParser.parse_problem", register_result=reg_domain, product_exempt=True)
         self._wrap(LP.TrajectoryParser, "parse_trajectory", "TrajectoryParser.parse_trajectory")
         self._wrap(LP.PDDLTokenizer, "parse", "PDDLTokenizer.parse", post=None)
         self._wrap(MA.MultiAgentDomainsConverter, "locate_domains", "MultiAgentDomainsConverter.locate_domains", register_result=reg_domain)
